@@ -11,16 +11,16 @@ import CpProofs.C11
     directory that points outside is served - like Apache's FollowSymLinks; the operator's content).
   * weak (the one that demands less): links located inside the directory (and links on the way to
     it) are the operator's business, but a request must not be able to reach an outside object in a
-    tree whose directory holds no link.  `C11_links_weak_false`: the code STILL violates it - the
-    containment test is lexical (`normpath`), the un-normalised string goes to the kernel, and
-    "a/lnk/.." is not "a" when `lnk` is a link: `/static/../other/lnk/../../root/f` passes the test
-    as `/t/root/f` and the kernel opens `/x/root/f`.
-  * what does hold (`C11_links_prefix_free`, `C11_links_weak_partial`, `…_static`): when the walk
-    meets no link, or when the string handed to the kernel has no ".." component, the object
-    reached is at or below the directory; in general the FIRST link the kernel follows sits at the
-    lexical normal form of a prefix of that string (`walkSeg_link_location`).
-    `C11_links_weak_normalised`: handing `normpath(filename)` to the kernel instead would make the
-    weak reading true.
+    tree whose directory holds no link.  **`C11_links_weak`, `C11_links_weak_session`: proved at
+    full strength for the code as repaired for F32 / F32b** (the normalised name that was tested is
+    the name the OS gets).  `C11_links_weak_false` / `C11_links_weak_session_false` keep the
+    refutation for the pre-repair definitions (`staticdirPreF32`, `sessOpPreF32`): the test was
+    lexical, the un-normalised string went to the kernel, and "a/lnk/.." is not "a" when `lnk` is a
+    link: `/static/../other/lnk/../../root/f` passed as `/t/root/f` and the kernel opened `/x/root/f`.
+  * path level (`C11_links_prefix_free`, `C11_links_weak_partial`, `C11_links_weak_normalised`):
+    when the walk meets no link, or when the string handed to the kernel has no ".." component,
+    the object reached is at or below the directory; in general the FIRST link the kernel follows
+    sits at the lexical normal form of a prefix of that string (`walkSeg_link_location`).
 -/
 namespace CpProofs.C11
 open CpModel.PathContain
@@ -357,6 +357,14 @@ def C11_links_weak_full : Prop :=
       (lresolve t true a.path = .dir q ∨ lresolve t true a.path = .file q) →
       components (normpath dir) <+: q
 
+/-- The weak reading for `staticdir` as it was before the F32 repair. -/
+def C11_links_weak_preF32_full : Prop :=
+  ∀ (t : LTree) (i : StaticIn) (dir : Str), staticDir i = some dir → IndexPlain i.index →
+    noLinkAround t (components (normpath dir)) = true →
+    ∀ a ∈ (staticdirPreF32 unquote (fsOf t) i).accesses, ∀ q,
+      (lresolve t true a.path = .dir q ∨ lresolve t true a.path = .file q) →
+      components (normpath dir) <+: q
+
 def S (s : String) : Str := s.toList
 def P (l : List String) : List Str := l.map String.toList
 
@@ -381,9 +389,9 @@ theorem C11_links_strong_false : ¬ C11_links_strong_full := by
   revert this
   decide
 
-/-- **The weak reading is violated by the code as it is**: no link at, above or inside `/t/root`,
+/-- **The weak reading was violated before the F32 repair**: no link at, above or inside `/t/root`,
     the request passes the (lexical) test as `/t/root/f`, and `stat`/`open` reach `/x/root/f`. -/
-theorem C11_links_weak_false : ¬ C11_links_weak_full := by
+theorem C11_links_weak_false : ¬ C11_links_weak_preF32_full := by
   intro h
   have := h treeOutside (reqStatic "/static/../other/lnk/../../root/f") (S "/t/root") (by decide)
     ⟨by decide, by decide⟩ (by decide)
@@ -391,22 +399,33 @@ theorem C11_links_weak_false : ¬ C11_links_weak_full := by
   revert this
   decide
 
-/-- The witness is a served request (200 with the content of `/x/root/f`). -/
-example : (staticdir unquote (fsOf treeOutside) (reqStatic "/static/../other/lnk/../../root/f")).outcome =
-    .served (S "/t/root/../other/lnk/../../root/f") := by decide
+/-- The pre-repair witness was a served request (200 with the content of `/x/root/f`); the repaired
+    code serves `/t/root/f`, which the kernel finds inside the directory. -/
+example :
+    (staticdirPreF32 unquote (fsOf treeOutside) (reqStatic "/static/../other/lnk/../../root/f")).outcome =
+      .served (S "/t/root/../other/lnk/../../root/f") ∧
+    staticdir unquote (fsOf treeOutside) (reqStatic "/static/../other/lnk/../../root/f") =
+      ⟨.served (S "/t/root/f"), [⟨.stat, S "/t/root/f"⟩, ⟨.openR, S "/t/root/f"⟩]⟩ ∧
+    lresolve treeOutside true (S "/t/root/f") = .file (P ["t", "root", "f"]) := by decide
 
-/-- **Weak reading, what holds for staticdir**: configured directory and decoded branch without ".."
-    component, plain index ⇒ every object `stat`/`open` reach is at or below the directory, in every
-    tree with no link at / above / below it. -/
-theorem C11_links_weak_partial_static (t : LTree) (i : StaticIn) (dir : Str)
-    (hd : staticDir i = some dir) (hix : IndexPlain i.index)
-    (hno : noLinkAround t (components (normpath dir)) = true)
-    (hdir : ∀ c ∈ splitSlash dir, c ≠ dotdot)
-    (hbr : ∀ c ∈ splitSlash (staticBranch unquote i), c ≠ dotdot) :
-    ∀ a ∈ (staticdir unquote (fsOf t) i).accesses, ∀ q,
-      (lresolve t true a.path = .dir q ∨ lresolve t true a.path = .file q) →
-      components (normpath dir) <+: q := by
-  intro a ha q hq
+theorem splitSlash_staticTarget_nodotdot (f : Str) (hf : isAbs f = true) :
+    ∀ c ∈ splitSlash (staticTarget f), c ≠ dotdot := by
+  have hn := splitSlash_normpath_nodotdot f hf
+  unfold staticTarget
+  split
+  · rw [splitSlash_snoc_slash]
+    intro c hc
+    rcases List.mem_append.1 hc with hc | hc
+    · exact hn c hc
+    · simp only [List.mem_singleton] at hc; subst hc; simp [dotdot]
+  · exact hn
+
+/-- **C11 with links, weak reading, full strength for `staticdir`** (the code as repaired for F32):
+    in every tree with no link at / above / below the configured directory, every object `stat`
+    and `open` reach - for EVERY request, dot-dot or not, and for the index fallback - is at or
+    below the directory. -/
+theorem C11_links_weak : C11_links_weak_full := by
+  intro t i dir hd hix hno a ha q hq
   obtain ⟨dir', hd', hu⟩ := C11_static_contained unquote (fsOf t) i hix a ha
   have hdd : dir' = dir := by rw [hd] at hd'; exact (Option.some.inj hd').symm
   subst hdd
@@ -415,7 +434,6 @@ theorem C11_links_weak_partial_static (t : LTree) (i : StaticIn) (dir : Str)
     rcases hq with hq | hq
     · exact .inl hq
     · exact .inr (.inl hq)
-  -- the path is `join dir branch` or `join (join dir branch) index`
   have hpaths : isAbs a.path = true ∧ ∀ c ∈ splitSlash a.path, c ≠ dotdot := by
     unfold staticdir at ha
     by_cases hm : i.method ≠ strGET ∧ i.method ≠ strHEAD
@@ -427,15 +445,17 @@ theorem C11_links_weak_partial_static (t : LTree) (i : StaticIn) (dir : Str)
         by_cases hchk : containedCheck (normpath dir') (normpath (join dir' (staticBranch unquote i))) = false
         · simp [hchk] at ha
         · simp only [hchk] at ha
-          obtain ⟨hf, hp⟩ := serveChecked_paths (fsOf t) _ _ a ha
-          have hfile := splitSlash_join_nodotdot dir' _ hdir hbr
+          obtain ⟨ht, hp⟩ := serveChecked_paths (fsOf t) _ _ a ha
+          have hf : isAbs (join dir' (staticBranch unquote i)) = true := by
+            rw [← isAbs_staticTarget]; exact ht
+          have hfile := splitSlash_staticTarget_nodotdot _ hf
           rcases hp with hp | hp
-          · rw [hp]; exact ⟨hf, hfile⟩
+          · rw [hp]; exact ⟨ht, hfile⟩
           · rw [hp]
-            exact ⟨isAbs_join _ _ hf, splitSlash_join_nodotdot _ _ hfile hix.2⟩
+            exact ⟨isAbs_join _ _ ht, splitSlash_join_nodotdot _ _ hfile hix.2⟩
   exact C11_links_weak_partial t true dir' a.path q hpaths.1 hu hpaths.2 hno hq'
 
-/-- Non-vacuity of the partial theorem: the same tree, a request without "..", served from inside. -/
+/-- Non-vacuity: the hypotheses hold on `treeOutside`, and the request is served. -/
 example : (staticdir unquote (fsOf treeOutside) (reqStatic "/static/f")).outcome = .served (S "/t/root/f") ∧
     lresolve treeOutside true (S "/t/root/f") = .file (P ["t", "root", "f"]) ∧
     noLinkAround treeOutside (components (normpath (S "/t/root"))) = true := by decide
@@ -463,15 +483,23 @@ def C11_links_weak_session_full : Prop :=
     ∀ a ∈ acc, ∀ q, (lresolve t true a.path = .dir q ∨ lresolve t true a.path = .file q) →
       components (normpath (sessionRoot cwd storage)) <+: q
 
+/-- The same for the methods as they were before the F32b repair. -/
+def C11_links_weak_session_preF32_full : Prop :=
+  ∀ (t : LTree) (cwd storage id : Str) (op : SessOp) (acc : List Access), isAbs cwd = true →
+    noLinkAround t (components (normpath (sessionRoot cwd storage))) = true →
+    sessOpPreF32 op cwd (sessionRoot cwd storage) id = some acc →
+    ∀ a ∈ acc, ∀ q, (lresolve t true a.path = .dir q ∨ lresolve t true a.path = .file q) →
+      components (normpath (sessionRoot cwd storage)) <+: q
+
 def treeSess : LTree :=
   ⟨[(P ["t"], .dir), (P ["t", "sess"], .dir), (P ["t", "sess", "session-"], .dir),
     (P ["t", "other"], .dir), (P ["t", "other", "lnk"], .link (S "/x/y/z")),
     (P ["x"], .dir), (P ["x", "y"], .dir), (P ["x", "y", "z"], .dir),
     (P ["x", "sess"], .dir), (P ["x", "sess", "session-v"], .file)]⟩
 
-/-- **Violated as well** (F32b): the cookie id `/../../other/lnk/../../sess/session-v` passes the
-    lexical test as `/t/sess/session-v` and `_load` opens `/x/sess/session-v`. -/
-theorem C11_links_weak_session_false : ¬ C11_links_weak_session_full := by
+/-- **Violated before the F32b repair**: the cookie id `/../../other/lnk/../../sess/session-v` passes
+    the lexical test as `/t/sess/session-v` and `_load` opened `/x/sess/session-v`. -/
+theorem C11_links_weak_session_false : ¬ C11_links_weak_session_preF32_full := by
   intro h
   have := h treeSess (S "/") (S "/t/sess") (S "/../../other/lnk/../../sess/session-v") .load
     [⟨.openR, S "/t/sess/session-/../../other/lnk/../../sess/session-v"⟩] (by decide) (by decide)
@@ -480,13 +508,11 @@ theorem C11_links_weak_session_false : ¬ C11_links_weak_session_full := by
   revert this
   decide
 
-/-- **What holds for sessions**: an id without a ".." component (in particular every id
-    `generate_id` produces, every id without `/`) reaches only objects at or below the storage
-    directory, in every tree with no link at / above / below it. -/
-theorem C11_links_weak_partial_session (t : LTree) (fl : Bool) (cwd storage id : Str) (op : SessOp)
+/-- The five methods on a tree with links, any `follow` flag (the repaired code: the normalised name
+    is what the OS gets). -/
+theorem C11_links_session_contained (t : LTree) (fl : Bool) (cwd storage id : Str) (op : SessOp)
     (acc : List Access) (hcwd : isAbs cwd = true)
     (hno : noLinkAround t (components (normpath (sessionRoot cwd storage))) = true)
-    (hid : ∀ c ∈ splitSlash id, c ≠ dotdot)
     (h : sessOp op cwd (sessionRoot cwd storage) id = some acc) :
     ∀ a ∈ acc, ∀ q, (lresolve t fl a.path = .dir q ∨ lresolve t fl a.path = .file q ∨
         lresolve t fl a.path = .lnk q) →
@@ -496,19 +522,16 @@ theorem C11_links_weak_partial_session (t : LTree) (fl : Bool) (cwd storage id :
   obtain ⟨X, hX, hsp⟩ := sessionRoot_eq cwd storage hcwd
   rw [hsp] at h hu hno ⊢
   have habs : isAbs (normpath X) = true := normpath_abs_isAbs X hX
-  have hf : isAbs (sessionFile (normpath X) id) = true := isAbs_join _ _ habs
-  -- pieces of the file name: those of the storage path, then `session-` ++ first piece of id, ...
-  have hname : ∀ c ∈ splitSlash (sessionPrefix ++ id), c ≠ dotdot := by
-    obtain ⟨x, xs, h1, h2⟩ := splitSlash_noslash_append sessionPrefix id (by decide)
-    rw [h2]
-    intro c hc
-    rcases List.mem_cons.1 hc with rfl | hc
-    · simp [sessionPrefix, dotdot]
-    · exact hid c (by rw [h1]; simp [hc])
-  have hfile : ∀ c ∈ splitSlash (sessionFile (normpath X) id), c ≠ dotdot :=
-    splitSlash_join_nodotdot _ _ (splitSlash_normpath_nodotdot X hX) hname
-  have hlock : ∀ c ∈ splitSlash (sessionFile (normpath X) id ++ lockSuffix), c ≠ dotdot := by
-    obtain ⟨init, last, h1, h2⟩ := splitSlash_append_noslash (sessionFile (normpath X) id) lockSuffix (by decide)
+  have hraw : isAbs (sessionFileRaw (normpath X) id) = true := isAbs_join _ _ habs
+  have hF : sessionFile cwd (normpath X) id = normpath (sessionFileRaw (normpath X) id) := by
+    simp [sessionFile, abspath, hraw]
+  have hf : isAbs (sessionFile cwd (normpath X) id) = true := by
+    rw [hF]; exact normpath_abs_isAbs _ hraw
+  have hfile : ∀ c ∈ splitSlash (sessionFile cwd (normpath X) id), c ≠ dotdot := by
+    rw [hF]; exact splitSlash_normpath_nodotdot _ hraw
+  have hlock : ∀ c ∈ splitSlash (sessionFile cwd (normpath X) id ++ lockSuffix), c ≠ dotdot := by
+    obtain ⟨init, last, h1, h2⟩ :=
+      splitSlash_append_noslash (sessionFile cwd (normpath X) id) lockSuffix (by decide)
     rw [h2]
     intro c hc
     rcases List.mem_append.1 hc with hc | hc
@@ -537,7 +560,18 @@ theorem C11_links_weak_partial_session (t : LTree) (fl : Bool) (cwd storage id :
     · simp [hchk] at h
   exact C11_links_weak_partial t fl (normpath X) a.path q hpath.1 hu hpath.2 hno hq
 
-example : sessOp .load (S "/") (sessionRoot (S "/") (S "/t/sess")) (S "v") =
+/-- **C11 with links, weak reading, full strength for the five `FileSession` methods**: for EVERY
+    session id (dot-dot or not) everything tested, read, written, locked or unlinked is at or below
+    the storage directory, in every tree with no link at / above / below it. -/
+theorem C11_links_weak_session : C11_links_weak_session_full := by
+  intro t cwd storage id op acc hcwd hno h a ha q hq
+  refine C11_links_session_contained t true cwd storage id op acc hcwd hno h a ha q ?_
+  rcases hq with hq | hq
+  · exact .inl hq
+  · exact .inr (.inl hq)
+
+/-- The F32b id on the repaired code: accepted as `/t/sess/session-v`, which is what the OS gets. -/
+example : sessOp .load (S "/") (sessionRoot (S "/") (S "/t/sess")) (S "/../../other/lnk/../../sess/session-v") =
     some [⟨.openR, S "/t/sess/session-v"⟩] ∧
     noLinkAround treeSess (components (normpath (sessionRoot (S "/") (S "/t/sess")))) = true := by decide
 
